@@ -40,7 +40,7 @@ LEVEL_TEXT = ("generated op-sequence search with a reference model of which repl
               "comparison of segmentations of the same TCP byte streams")
 LEVEL_NOTE = "trusts lib/driver.py, lib/ref_dns.py and Hypothesis' search"
 QUICK_N, THOROUGH_N = 80_000, 4_000_000
-BUDGET_S = (150, 5400)
+BUDGET_S = (240, 5400)
 
 IDS = [1, 2, 0xC00C, 65535]
 NAMES = [["a", "test"], ["b", "test"], ["err", "test"], ["ans", "test"], ["ü", "test"], ["A", "test"]]
